@@ -204,6 +204,37 @@ static void sc_mutex() {
     }
 }
 
+// 4b. mutex, directed window: a requester is held between its failed try-lock (await_ready) and its registration (subscribe)
+// while the owner hands the mutex over through a queued waiter which then releases it: the requester's publishing CAS finds the
+// mutex unlocked and it becomes owner through build_queue(). Threads are ordered by sleeping only (nothing TSan could take for a
+// happens-before edge). Found by the mutex builder; the pinned code read `_queue` in an assert before the acquire exchange.
+static void sc_mutex_window() {
+    using namespace std::chrono_literals;
+    for (int i = 0; i < ITER / 50 + 1; i++) {
+        mutex mx;
+        mutex::ownership own = mx.try_lock();
+        std::thread t2([&] {
+            auto req = mx.lock();
+            if (req.await_ready()) { mutex::ownership o = req.await_resume(); mx_counter++; return; }
+            std::this_thread::sleep_for(40ms);
+            sync_awaiter awt;
+            if (req.subscribe(&awt)) awt.flag.wait(false);
+            mutex::ownership o = req.await_resume();
+            mx_counter++;
+        });
+        std::thread t3([&] {
+            std::this_thread::sleep_for(10ms);
+            mutex::ownership o = mx.lock().wait();
+            mx_counter++;
+        });
+        std::this_thread::sleep_for(20ms);
+        mx_counter++;
+        own.release();
+        t2.join();
+        t3.join();
+    }
+}
+
 // 5. queue: producers/consumers
 static void sc_queue() {
     for (int i = 0; i < ITER / 10 + 1; i++) {
@@ -360,7 +391,7 @@ static void sc_shared() {
 int main(int argc, char **argv) {
     struct S { const char *name; void (*fn)(); };
     S all[] = {{"future_poll", sc_future_poll}, {"future_await", sc_future_await}, {"future_compete", sc_future_compete},
-               {"mutex", sc_mutex}, {"queue", sc_queue}, {"pool", sc_pool}, {"scheduler", sc_scheduler},
+               {"mutex", sc_mutex}, {"mutex_window", sc_mutex_window}, {"queue", sc_queue}, {"pool", sc_pool}, {"scheduler", sc_scheduler},
                {"publisher", sc_publisher}, {"storage", sc_storage}, {"generator", sc_generator}, {"signal", sc_signal},
                {"shared", sc_shared}};
     if (argc > 2) ITER = atoi(argv[2]);
